@@ -119,6 +119,93 @@ theorem getShift_le {pl : PruneList} (h : Inv pl) (pos : Nat)
 
 end PruneList
 
+theorem drop_countP_gt {l : List Nat} (a : Nat) (h : Sorted l) :
+    ∀ x ∈ l.drop (l.countP (· ≤ a)), a < x := by
+  induction l with
+  | nil => intro x hx; simp at hx
+  | cons b t ih =>
+    have h' := List.pairwise_cons.1 h
+    by_cases hb : b ≤ a
+    · intro x hx
+      rw [List.countP_cons] at hx
+      simp only [hb, decide_true, if_true, List.drop_succ_cons] at hx
+      exact ih h'.2 x hx
+    · have hall : ∀ y ∈ t, a < y := fun y hy => by have := h'.1 y hy; omega
+      have hc : (b :: t).countP (· ≤ a) = 0 := by
+        rw [List.countP_cons]; simp [hb, countP_eq_zero_of_all_gt hall]
+      intro x hx
+      rw [hc] at hx
+      rcases List.mem_cons.1 hx with rfl | hx
+      · omega
+      · exact hall x hx
+
+namespace PruneList
+
+/-- **`is_pruned` is right to look only at the next root**: under the invariant, `is_pruned pos`
+holds exactly when `pos` is a pruned root or lies strictly inside the subtree of some pruned root -/
+theorem isPruned_iff {pl : PruneList} (h : Inv pl) (p : Nat) :
+    isPruned pl p = (isPrunedRoot pl p || compactedP pl.bitmap p) := by
+  unfold isPruned
+  by_cases hr : isPrunedRoot pl p = true
+  · simp [hr]
+  · have hr' : isPrunedRoot pl p = false := by simpa using hr
+    rw [if_neg hr, hr', Bool.false_or]
+    have hnot : (1 + p) ∉ pl.bitmap := by
+      intro hm; rw [isPrunedRoot, contains_iff.2 hm] at hr'; exact absurd hr' (by simp)
+    have hsplit : pl.bitmap = pl.bitmap.take (Bm.rank pl.bitmap (1 + p)) ++
+        pl.bitmap.drop (Bm.rank pl.bitmap (1 + p)) := (List.take_append_drop _ _).symm
+    have htake : ∀ x ∈ pl.bitmap.take (Bm.rank pl.bitmap (1 + p)), x ≤ 1 + p := by
+      intro x hx
+      unfold Bm.rank at hx
+      rw [← filter_le_eq_take _ h.sorted] at hx
+      simpa using (List.mem_filter.1 hx).2
+    have hdrop := drop_countP_gt (1 + p) h.sorted
+    have hany1 : (pl.bitmap.take (Bm.rank pl.bitmap (1 + p))).any (interior · p) = false := by
+      rw [List.any_eq_false]
+      intro x hx
+      have h1 := htake x hx
+      have h2 : x ≠ 1 + p := fun e => hnot (e ▸ List.mem_of_mem_take hx)
+      unfold interior; simp; omega
+    have hsel : Bm.select pl.bitmap (Bm.rank pl.bitmap (1 + p)) =
+        (pl.bitmap.drop (Bm.rank pl.bitmap (1 + p))).head? := by
+      unfold Bm.select; rw [List.head?_drop]
+    have hcp : compactedP pl.bitmap p =
+        (pl.bitmap.drop (Bm.rank pl.bitmap (1 + p))).any (interior · p) := by
+      unfold compactedP
+      conv => lhs; rw [hsplit]
+      rw [List.any_append, hany1, Bool.false_or]
+    rw [hsel, hcp]
+    have hdisj : List.Pairwise (fun a b => a ≤ bintreeLeftmost (b - 1))
+        (pl.bitmap.drop (Bm.rank pl.bitmap (1 + p))) :=
+      List.Pairwise.sublist (List.drop_sublist _ _) h.disj
+    unfold Bm.rank at hdrop
+    generalize pl.bitmap.drop (Bm.rank pl.bitmap (1 + p)) = d at hdrop hdisj ⊢
+    cases d with
+    | nil => simp
+    | cons r rest =>
+      have hr1 := hdrop r (by simp)
+      have hd := List.pairwise_cons.1 hdisj
+      have hrest : rest.any (interior · p) = false := by
+        rw [List.any_eq_false]
+        intro y hy
+        have := hd.1 y hy
+        unfold interior; simp; omega
+      simp only [List.head?_cons, List.any_cons, hrest, Bool.or_false]
+      unfold interior bintreeRange bintreeLeftmost
+      have e1 : decide (p < r - 1 + 1) = true := by simp; omega
+      have e2 : decide (p < r - 1) = true := by simp; omega
+      simp only [e1, e2, Bool.and_true]
+
+/-- `is_compacted` for a position outside the leaf set: not a root, strictly inside a pruned subtree -/
+theorem isCompacted_iff {H : Type} {b : Backend H} (h : Inv b.pruneList) (p : Nat)
+    (hl : b.leafSet.includes p = false) :
+    b.isCompacted p = (!b.pruneList.isPrunedRoot p && compactedP b.pruneList.bitmap p) := by
+  unfold Backend.isCompacted Backend.isPruned Backend.isPrunedRoot
+  rw [hl, isPruned_iff h]
+  cases b.pruneList.isPrunedRoot p <;> simp
+
+end PruneList
+
 theorem filter_range_succ (p : Nat → Bool) (n : Nat) :
     (List.range (n + 1)).filter p = (List.range n).filter p ++ (if p n then [n] else []) := by
   rw [List.range_succ, List.filter_append]
